@@ -15,6 +15,7 @@ import (
 )
 
 type SolverCfg struct {
+	NoPatient bool // mutant runs: no second chance for undecided queries
 	WorkDir   string
 	Timeout   time.Duration // per solver attempt
 	Cross     bool          // confirm every unsat with a second solver family
@@ -239,9 +240,14 @@ func solveAll(cfg *SolverCfg, obls []*Obligation, stats *solverStats) {
 		if j.q.Cover || j.o.ExpectSat || j.q.Verdict == "sat" || j.q.Verdict == "unsat" {
 			continue
 		}
+		// only answers that look time-limited: a solver that gives up quickly ("unknown" after a
+		// fraction of the budget) would give up again
+		if j.q.Secs < 0.5*cfg.Timeout.Seconds() {
+			continue
+		}
 		undecided = append(undecided, j)
 	}
-	if len(undecided) > 0 && len(undecided) <= patientMax {
+	if !cfg.NoPatient && len(undecided) > 0 && len(undecided) <= patientMax {
 		pcfg := *cfg
 		pcfg.Timeout = cfg.Timeout * patientFactor
 		pcfg.Cross = false
@@ -277,8 +283,8 @@ func solveAll(cfg *SolverCfg, obls []*Obligation, stats *solverStats) {
 // patient pass limits: at most patientMax undecided queries are retried, each with
 // patientFactor times the normal per-query budget
 const (
-	patientMax    = 24
-	patientFactor = 8
+	patientMax    = 8
+	patientFactor = 6
 )
 
 func decide(o *Obligation) {
